@@ -30,6 +30,16 @@ struct minifloat
     minifloat& operator+=(minifloat b) { v = rnd(v + b.v); return *this; }
     friend bool operator==(minifloat a, minifloat b) { return a.v == b.v; }
     friend bool operator!=(minifloat a, minifloat b) { return a.v != b.v; }
+    // the rest of what a floating-point type offers (a refactored summation may use any of it)
+    friend bool operator<(minifloat a, minifloat b) { return a.v < b.v; }
+    friend bool operator>(minifloat a, minifloat b) { return a.v > b.v; }
+    friend bool operator<=(minifloat a, minifloat b) { return a.v <= b.v; }
+    friend bool operator>=(minifloat a, minifloat b) { return a.v >= b.v; }
+    minifloat operator-() const { return minifloat(-v); }
+    minifloat& operator-=(minifloat b) { v = rnd(v - b.v); return *this; }
+    minifloat& operator*=(minifloat b) { v = rnd(v * b.v); return *this; }
+    friend minifloat fabs(minifloat a) { return minifloat(a.v < 0 ? -a.v : a.v); }
+    friend minifloat abs(minifloat a) { return minifloat(a.v < 0 ? -a.v : a.v); }
 };
 
 } // namespace vt
